@@ -186,6 +186,7 @@ type VC struct {
 	notes   map[string]bool // abstractions / assumptions recorded while generating
 	oblNames map[string]int
 	creg *compReg
+	localsFrom string // allocation counter at function entry: cells at or above it belong to this activation
 	glines []string
 	gdecl map[string]bool
 	gmode int
@@ -269,6 +270,7 @@ func (vc *VC) name(prefix, sort, term string) string {
 
 func (vc *VC) oblige(o *Obl) {
 	o.Func = vc.Func
+	o.Name = strings.ReplaceAll(o.Name, " ", "_")
 	base := o.Name
 	k := vc.oblNames[base]
 	vc.oblNames[base] = k + 1
@@ -730,4 +732,20 @@ func (vc *VC) sq(fn, es string, args ...string) string {
 // view of a slice value over the given backing-array heap term
 func (vc *VC) view(es, arrHeapTerm, s string) string {
 	return vc.sq("seq_slice", es, sel(arrHeapTerm, app("s_arr", s)), app("s_off", s), app("s_len", s))
+}
+
+// structTID: the runtime type tag of whole allocated objects of struct type t (canonical: `type Leaf Tree` share it).
+func (vc *VC) structTID(t types.Type) string {
+	name := canonStructName(t)
+	k := "struct:" + name
+	if id, ok := vc.typeIDs[k]; ok {
+		return fmt.Sprint(id)
+	}
+	vc.gmode++
+	defer func() { vc.gmode-- }()
+	id := len(vc.typeIDs) + 1
+	vc.typeIDs[k] = id
+	vc.typeOrder = append(vc.typeOrder, k)
+	vc.raw(fmt.Sprintf("; typeid %d = %s", id, k))
+	return fmt.Sprint(id)
 }
